@@ -36,7 +36,7 @@ def subst(t, d):
     if k in ("fix", "var"):
         return [k, subst(t[1], d), t[2]]
     if k in ("struct", "union"):
-        return [k, t[1], [[n, subst(ft, d)] for n, ft in t[2]]]
+        return [k, t[1], [[n, subst(ft, d)] for n, ft in t[2]]] + t[3:]
     if k == "delim":
         inner = subst(t[1], d)
         return ["delim", inner, t[2]]
@@ -49,7 +49,7 @@ def has_hole(t):
 
 def instantiate(case, new):
     fields = case["old"] + (case["app"] if new else [])
-    d = ["delim", ["struct", 9000, fields], case["ext"]]
+    d = ["delim", ["struct", 9000, fields] + case.get("dconsts", []), case["ext"]]
     t = subst(case["cont"], d)
     return fix_extents(t)
 
@@ -60,7 +60,7 @@ def fix_extents(t):
     if k in ("fix", "var"):
         return [k, fix_extents(t[1]), t[2]]
     if k in ("struct", "union"):
-        return [k, t[1], [[n, fix_extents(ft)] for n, ft in t[2]]]
+        return [k, t[1], [[n, fix_extents(ft)] for n, ft in t[2]]] + t[3:]
     if k == "delim":
         inner = fix_extents(t[1])
         if isinstance(t[2], list):  # ["slack", n]: extent = max length of the inner type (which does not depend on the hole's fields) + n
@@ -96,11 +96,11 @@ def gen_container(ctx, depth, place_hole):
         # something after the hole makes the case interesting
         if place_hole and pos == n - 1 and rng.random() < 0.8:
             fs.append(["f%d" % n, S.gen_prim(rng)])
-        t = ["struct", ctx.fresh(), fs]
+        t = ["struct", ctx.fresh(), fs] + S.gen_consts(rng, len(fs))
     elif kind < 0.8:
         n = rng.choice([2, 3, 4])
         pos = rng.randrange(n) if place_hole else -1
-        t = ["union", ctx.fresh(), [["v%d" % i, field_with_hole(depth) if i == pos else S.gen_field_type(ctx, max(depth - 1, 0))] for i in range(n)]]
+        t = ["union", ctx.fresh(), [["v%d" % i, field_with_hole(depth) if i == pos else S.gen_field_type(ctx, max(depth - 1, 0))] for i in range(n)]] + S.gen_consts(rng, n)
     else:
         inner = gen_container(ctx, depth, place_hole)
         while inner[0] == "delim":
@@ -124,7 +124,7 @@ def gen_case(rng, tier):
     old, app = fields[:nf], fields[nf:]
     ext = S.max_len(["struct", 9000, fields]) + 8 * rng.choice([0, 0, 1, 3, 16])
     direction = rng.choice(["o2n", "n2o"])
-    case = {"cont": cont, "old": old, "app": app, "ext": ext, "dir": direction}
+    case = {"cont": cont, "old": old, "app": app, "ext": ext, "dir": direction, "dconsts": S.gen_consts(rng, nf)}
     tw = instantiate(case, new=(direction == "n2o"))
     case["val"] = S.gen_value(rng, tw, p_omit=rng.choice([0.0, 0.0, 0.15]))
     return case
@@ -392,6 +392,8 @@ def describe(case, obs):
             where(t[1], ctx)
 
     where(case["cont"], "top")
+    if case.get("dconsts") or any(S.consts_of(x) for x in S.walk_types(case["cont"]) if x[0] in ("struct", "union")):
+        keys.append("has:constants")
     if after_hole(case["cont"]):
         keys.append("data-after-hole")
     ser = obs.get("ser", {})
